@@ -149,6 +149,16 @@ CHECKS["C17"] = dict(
     technique="SMT translation validation (z3 NRA) in a two-sided symbolic environment + structural side conditions",
     design="§4 C17", engine="E1")
 
+CHECKS["C23"] = dict(
+    level="translation_validation",
+    text="Complex mode: do_comparison_check alone and compute_form_data(complex_mode=True) run on comparison/min/max "
+         "skeletons; when they accept, z3 must prove that every compared operand (as written by the user, and as "
+         "present after the whole pipeline) has imaginary part identically zero for arbitrary complex field data, "
+         "and that the output equals the input on real data. Real mode: remove_complex_nodes output equals input on "
+         "real data, Imag and complex literals must raise.",
+    technique="SMT decision (z3 NRA over re/im pairs with uninterpreted complex functions) of realness of compared operands",
+    design="§4 C23", engine="E1")
+
 NOT_APPLICABLE = {
     "C11": "Signature injectivity is injectivity of string renderings (repr/str, numpy array printing, float "
            "formatting) composed with sha512: CrossHair cannot confirm it, z3/cvc5 string theories answer unknown, "
